@@ -141,7 +141,6 @@ def splitLinesAux (acc : Str) : Str → List Str
         if c2 = '\n' then (acc ++ [c, c2]) :: splitLinesAux [] cs2
         else (acc ++ [c]) :: splitLinesAux [] (c2 :: cs2)
     else splitLinesAux (acc ++ [c]) cs
-termination_by l => l.length
 
 def splitLines (t : Str) : List Str := splitLinesAux [] t
 
